@@ -141,6 +141,10 @@ def direction1(ck, case):
     for name, (tid, base, k, vals) in case["extras"].items():
         arr = to_array([p for row in vals for p in row], base)
         las[name] = arr if k == 1 else arr.reshape(n, k)
+    if case["extras"] and ck.rng.random() < 0.4:
+        # the VLR list re-assigned as a whole: the EXTRA_BYTES record must still reach the file
+        ck.count("vlrs_reassigned_with_extras")
+        las.vlrs = list(las.vlrs)
     buf = io.BytesIO()
     las.write(buf)
     return buf.getvalue()
@@ -405,6 +409,26 @@ def run(ck):
         ck.count("spec_file_evlrs=%d" % len(evlrs3))
         check_laspy_presents(ck, case, data3, inp, "spec-encoded file with VLRs/EVLRs")
         check_laspy_presents_envelope(ck, case, data3, vlrs3, evlrs3, inp)
+        # a header taken from a file whose points are flagged compressed, used to write plain records: byte 104 is the format id
+        try:
+            import laspy
+            flagged = bytearray(data3)
+            flagged[104] |= 0x80
+            with laspy.open(io.BytesIO(bytes(flagged)), laz_backend=()) as rdz:
+                hz = rdz.header
+            plain_src = laspy.read(io.BytesIO(data3))
+            outz = io.BytesIO()
+            if ck.rng.random() < 0.5:
+                with laspy.open(outz, mode="w", header=hz, do_compress=False, closefd=False) as wz:
+                    wz.write_points(plain_src.points)
+            else:
+                laspy.LasData(hz, plain_src.points).write(outz)
+            ck.count("header_from_compressed_source")
+            if outz.getvalue()[104] != case["fmt"]:
+                ck.fail(f"uncompressed file written with a header that came from a compressed source: point format byte {outz.getvalue()[104]}, "
+                        f"the specification's format id is {case['fmt']}", dict(inp, scenario="header from compressed source"))
+        except Exception as e:
+            ck.fail(f"writing plain records with a header from a compressed source raised {type(e).__name__}: {e}", inp)
         # the same content read by laspy and written again, the EVLRs dropped by the user: the specification decoder must find
         # a file without an EVLR block (file length = offset + count x record length, no EVLR announced)
         if case["minor"] >= 4 and evlrs3:
